@@ -125,7 +125,7 @@ def datetime_iso(draw, profile="json"):
 
 _URIS = ["http://example.org/a", "urn:x:1", "http://a/e1", "mailto:a@b.c", "http://example.org/q?x=1&y=2#f",
          "http://example.org/é", "file:///tmp/x y", "prov:looks-like-a-prov-name", "xsd:string", "data/input.csv", "../out/x.json", "#sec"]
-_LANGS = ["en", "fr-CA", "de", "EN-gb"]
+_LANGS = ["en", "fr-CA", "de", "EN-gb", "es-419", "de-1996", "sl-rozaj-1994"]
 _FOREIGN_XSD = ["float", "decimal", "gYear", "integer", "short", "token", "date", "unsignedInt"]
 
 
